@@ -14,6 +14,7 @@ struct Node {
 	nng_socket           s;
 	bool                 raw = false;
 	std::deque<uint32_t> q; // model of the receive queue (tags in arrival order)
+	std::deque<int>      qe; // link epoch at the time each queued message arrived (its pipe belongs to that epoch)
 	size_t               rcap = 16;
 	uint32_t             seq  = 0;
 	std::map<uint32_t, int> pipe_owner; // pipe id on this node -> neighbour node (learned from traffic)
@@ -80,8 +81,11 @@ recv_one(World &W, int k, const std::vector<uint32_t> *optional = nullptr, size_
 	else
 		VR_CHECK(it->second == via, "C09:pipe-mixup", "node %d: pipe %u delivered a message of neighbour %d, earlier of neighbour %d", k, pid, via,
 		    it->second);
+	int arrival_epoch = W.epoch[std::min(k, via)][std::max(k, via)];
 	if (!K.q.empty() && K.q.front() == tag) {
 		K.q.pop_front();
+		arrival_epoch = K.qe.front();
+		K.qe.pop_front();
 	} else if (optional != nullptr) {
 		// burst mode: an in-order subsequence of the burst is acceptable
 		bool found = false;
@@ -103,7 +107,7 @@ recv_one(World &W, int k, const std::vector<uint32_t> *optional = nullptr, size_
 		K.last       = m;
 		K.last_from  = via;
 		K.last_pid   = pid;
-		K.last_epoch = W.epoch[std::min(k, via)][std::max(k, via)];
+		K.last_epoch = arrival_epoch; // (not the epoch at receive time: the message may have waited across a re-link)
 	} else
 		nng_msg_free(m);
 	vr_tag("delivered");
@@ -127,9 +131,10 @@ deliver_model(World &W, int from, int except, uint32_t tag)
 		if (k == from || k == except || !linked(W, from, k))
 			continue;
 		nrec++;
-		if (W.n[k].q.size() < W.n[k].rcap)
+		if (W.n[k].q.size() < W.n[k].rcap) {
 			W.n[k].q.push_back(tag);
-		else
+			W.n[k].qe.push_back(W.epoch[std::min(k, from)][std::max(k, from)]);
+		} else
 			vr_tag("recv_overflow");
 	}
 	if (nrec >= 2)
